@@ -184,3 +184,19 @@ package labels
 //@   ensures prev == nil && len(b.Labels) == 1 && b.Labels[0] != 0 ==> result[b.Labels[0]] == blockVox(b) && (forall l uint64 :: l != b.Labels[0] ==> !has(result, l))
 //@   ensures prev != nil && len(b.Labels) == 1 && len(prev.Labels) == 1 && b.Labels[0] != 0 && prev.Labels[0] != 0 && b.Labels[0] != prev.Labels[0] ==> result[b.Labels[0]] == blockVox(b) && result[prev.Labels[0]] == 0 - blockVox(*prev)
 //@   ensures prev != nil && len(b.Labels) == 1 && len(prev.Labels) == 1 && b.Labels[0] != 0 && prev.Labels[0] == b.Labels[0] ==> result[b.Labels[0]] == blockVox(b) - blockVox(*prev)
+
+// Split of a block's voxels (C10): the two sizes reported are exact counts - splitSize is the number of
+// voxels actually relabelled from op.Target to op.NewLabel, and kept + split stays the number of target voxels
+// the block had (no voxel lost, duplicated or counted without being relabelled).
+//@ func PositionedBlock.splitSlow
+//@   prop C10
+//@   safety_off
+//@   calls_havoc
+//@   modifies *
+//@   ghost relab uint64 = 0
+//@   ghost n0 uint64 = 0
+//@   ghostset at "lblarray[i] = op.NewLabel": relab = relab + 1
+//@   ghostset at "if keptSize == 0 {": n0 = keptSize
+//@   invariant loop 2: keptSize + splitSize == n0 && splitSize == relab
+//@   invariant loop 3: keptSize + splitSize == n0 && splitSize == relab
+//@   assert at "split, err = MakeBlock(lblarrayBytes, pb.Size)": keptSize + splitSize == n0 && splitSize == relab
